@@ -12,5 +12,6 @@ Lemma tr_sound_lemma :
   (forall s, seek_of gen_tr s = seek_overwrite s) /\
   (forall pid tid cs st, emit_chunks_of gen_tr pid tid cs st = emit_chunks pid tid cs st) /\
   (forall b e, is_long_of gen_tr b e = is_long b e) /\
-  tr_chunk gen_tr = chunk_size /\ tr_reserve gen_tr = chunk_size.
+  tr_chunk gen_tr = chunk_size /\ tr_reserve gen_tr = chunk_size /\
+  (forall r id, reg_attach_of gen_tr r id = reg_attach r id).
 Proof. apply tr_match_sound. exact tr_match_lemma. Qed.
